@@ -1,1 +1,22 @@
-(* placeholder *)
+(* C09 - connection IDs are unique per server and stable per connection.
+   ONLY statements.  The model is the labelled transition system of Sys.v:
+   every interleaving of the Run thread, any number of Stop calls, connection
+   goroutines, per-request goroutines (with arbitrary handler scripts) and the
+   environment (clients, barriers, slow OnClose).  [reachable cfg s]: s is the
+   result of some label sequence from the initial state.  The boolean fields
+   of [cfg] are the places where the pinned and the current tree differ;
+   [fixed_cfg] is the current tree (validated behaviourally on every run by the
+   scenario correspondence), [pinned_cfg] the tree before the fix commits. *)
+From G Require Import Base Sys SysProofs SysProps.
+Open Scope nat_scope.
+
+Theorem C09_positive_unique : forall cfg s, reachable cfg s ->
+  (forall i c, conn_of s i c -> cid c = S i) /\
+  (forall i j ci cj, conn_of s i ci -> conn_of s j cj -> cid ci = cid cj -> i = j).
+Proof. exact c09_ids. Qed.
+Print Assumptions C09_positive_unique.
+
+Theorem C09_stable : forall cfg s l s' i c, reachable cfg s -> step cfg s l = Some s' -> conn_of s i c ->
+  exists c', conn_of s' i c' /\ cid c' = cid c.
+Proof. exact c09_stable. Qed.
+Print Assumptions C09_stable.
